@@ -26,6 +26,12 @@ the drivers are built from the *edited* declaration, compiled against what is on
 Every driver also reads every field back by its declared name (C++ member, Java reflection): the value must be the one
 given for the field's position in the declaration — the link between "the order of the declaration" and the object
 (`c09.spec` clause; `field_order_matters`).
+Run-time class stream (behavioural): a record's Java class can be extended when the record is a base record
+(`record +java`: generated non-final `<Name>Base`, the user's `<Name> extends <Name>Base`) or when
+`java.use_final_for_record` is off. For such records (`build_class_groups`, both configurations) the value tuples are
+spread over instances of the generated class, of a user subclass that adds no state and of anonymous subclasses; the
+specification is the same function of the field values (equals ⇔ all fields equal, compareTo == 0 ⇔ equals, equal ⇒
+equal hash), so two objects with equal fields and different run-time classes must be equal.
 Name stream (behavioural): the field names are the identifiers the *generated* record code itself uses as simple names
 (`body_identifiers`: parameters and locals of the emitted bodies — `other`, `obj`, `lhs`, `rhs`, `value`, `hashCode`,
 `tempResult` … —, roots of qualified names, called functions; read off the tokens of a probe generation, filtered by the
@@ -393,6 +399,8 @@ def explicit_of(rec) -> list[bool]:
 def render_record(rec, targets="") -> str:
     der = [d for d, on in zip(("eq", "ord"), explicit_of(rec)) if on]
     body = " ".join(f"{n}: {t};" for n, t in rec["fields"])
+    if rec.get("base") and not targets:
+        targets = " +java"      # base record: the generated Java class is the non-final `<Name>Base`, the user writes `<Name>`
     return f"{rec['name']} = record{targets} {{ {body} }}" + (f" deriving({', '.join(der)})" if der else "") + "\n"
 
 
@@ -473,22 +481,63 @@ def cpp_driver(rec, info, names, pools, tuples, has_eq, has_ord, inner=None) -> 
     return "\n".join(lines) + "\n"
 
 
-def java_driver(cls, rec, info, names, pools, tuples, has_eq, has_cmp, has_str, inner=None) -> str:
+RUNTIME_CLASSES = ["generated", "user-subclass", "anonymous-subclass"]
+
+
+def java_classes(rec, info, layout):
+    """How the Java objects of a record come into being. A final record class: `new T(…)`. A record class that can be extended
+    (`record +java`: the generated `<Name>Base` + the user's `<Name>`; `java.use_final_for_record: false`): the tuples are
+    spread over instances of the generated class, of a trivial user subclass (behaviour only, no state) and of an anonymous
+    subclass — objects with equal fields are the same value whatever their run-time class.
+    -> None | {"generated": qualified name of the generated class, "user": name of the subclass, "user_file": (path, text) | None}"""
+    T = info["type_names"]["java_typename"]
+    if rec.get("base"):
+        pkg = T.rsplit(".", 1)[0]
+        return {"generated": pkg + "." + info["type_names"]["java"], "user": T, "external": True}
+    if layout and layout.get("java_final") is False:
+        return {"generated": T, "user": "Sub", "external": False}
+    return None
+
+
+def user_subclass(name, parent, rec, names, nested=False) -> str:
+    tys = [parse_type(t) for _, t in rec["fields"]]
+    params = ", ".join(f"{java_type(ty, names)} p{k}" for k, ty in enumerate(tys))
+    args = ", ".join(f"p{k}" for k in range(len(tys)))
+    return (f"{'  static ' if nested else 'public '}class {name} extends {parent} {{ {'' if nested else 'public '}{name}({params}) {{ super({args}); }} "
+            f"String describe() {{ return \"user code\"; }} }}\n")
+
+
+def java_driver(cls, rec, info, names, pools, tuples, has_eq, has_cmp, has_str, inner=None, classes=None) -> str:
     T = info["type_names"]["java_typename"]
     tys = [parse_type(t) for _, t in rec["fields"]]
+    if classes:
+        T = classes["generated"]
     L = [f"public class {cls} {{",
          "  static String exc(Throwable e) { return e instanceof NullPointerException ? \"npe\" : e.getClass().getSimpleName(); }",
          "  static String held(Object o, String name, Object want) {",
-         "    try { java.lang.reflect.Field f = o.getClass().getDeclaredField(name); f.setAccessible(true);",
-         "          return java.util.Objects.deepEquals(f.get(o), want) ? \"1\" : \"0\"; }",
-         "    catch (ReflectiveOperationException | RuntimeException e) { return \"0\"; }",
+         "    for (Class<?> c = o.getClass(); c != null; c = c.getSuperclass()) {",
+         "      try { java.lang.reflect.Field f = c.getDeclaredField(name); f.setAccessible(true);",
+         "            return java.util.Objects.deepEquals(f.get(o), want) ? \"1\" : \"0\"; }",
+         "      catch (NoSuchFieldException e) { continue; }",
+         "      catch (ReflectiveOperationException | RuntimeException e) { return \"0\"; }",
+         "    }",
+         "    return \"0\";",
          "  }",
          "  @SuppressWarnings({\"unchecked\", \"rawtypes\"})",
          "  public static void main(String[] args) {",
          f"    {T}[] v = new {T}[] {{"]
-    for tup in tuples:
-        L.append(f"      new {T}(" + ", ".join(java_lit(ty, x, names, pools) for ty, x in zip(tys, tup)) + "),")
+    for i, tup in enumerate(tuples):
+        args = ", ".join(java_lit(ty, x, names, pools) for ty, x in zip(tys, tup))
+        kind = RUNTIME_CLASSES[i % 3] if classes else "generated"
+        if kind == "user-subclass":
+            L.append(f"      new {classes['user']}({args}),")
+        elif kind == "anonymous-subclass":
+            L.append(f"      new {classes['user'] if (classes['external'] and i % 2) else T}({args}) {{ }},")
+        else:
+            L.append(f"      new {T}({args}),")
     L.append("    };")
+    if classes and not classes["external"]:
+        L.insert(1, user_subclass(classes["user"], T, rec, names, nested=True).rstrip("\n"))
     # every field read back by its declared name: does it hold the value given for its position in the declaration?
     held = [k for k, ty in enumerate(tys) if comparable(ty, inner)]
     for i, tup in enumerate(tuples):
@@ -694,7 +743,10 @@ def apply_layout(ctx, records, layout):
 
 
 def behaviour_options(ctx, tag, layout=None, all_targets=True):
-    opts = glue.base_options(ctx.tmp / f"b_{tag}" / "out", java={"string_serialization": True},
+    java = {"string_serialization": True}
+    if layout and layout.get("java_final") is not None:
+        java["use_final_for_record"] = bool(layout["java_final"])
+    opts = glue.base_options(ctx.tmp / f"b_{tag}" / "out", java=java,
                              extra={"default_deriving": list(layout["default"])} if layout and layout.get("default") else None)
     if not all_targets:
         # only the two targets of this property are configured: the field names of the run need not be valid in Objective-C and C++/CLI
@@ -800,8 +852,15 @@ def prepare(ctx, records, tag, res, fixed=None, layout=None, inner_eff=None):
                     files[f"{sub}/{pth}"] = text
         srcs = [p for dn in needs(rec) + [rec["name"]] for p in infos[dn]["files"].get("cpp", {}) if p.endswith(".cpp")]
         cls = f"Drv{k}"
+        jclasses = java_classes(rec, info, layout)
+        if jclasses and jclasses["external"] and "java" not in info["errors"]:
+            # the user's part of a base record: a subclass of the generated class that adds behaviour, no state
+            uq = jclasses["user"]
+            files["java/" + uq.replace(".", "/") + ".java"] = f"package {uq.rsplit('.', 1)[0]};\n" + user_subclass(uq.rsplit(".", 1)[1], jclasses["generated"], rec, names)
+        if jclasses:
+            ctx.stat("records_with_instances_of_several_runtime_classes")
         cppd = cpp_driver(rec, info, names, pools, tuples, dec["cppDeclaresEq"], dec["cppDeclaresOrd"], INNER) if "cpp" not in info["errors"] else None
-        javad = java_driver(cls, rec, info, names, pools, tuples, dec["javaHasEquals"], dec["javaHasCompareTo"], dec["javaHasToString"], INNER) if "java" not in info["errors"] else None
+        javad = java_driver(cls, rec, info, names, pools, tuples, dec["javaHasEquals"], dec["javaHasCompareTo"], dec["javaHasToString"], INNER, jclasses) if "java" not in info["errors"] else None
         jobs.append((str(pdir / f"run{k}"), files, srcs, cppd, cls, javad, inc))
         metas.append((rec, info, dec, tuples))
     return jobs, metas, atoms
@@ -830,9 +889,12 @@ def evaluate(ctx, metas, observations, atoms):
         if regen:
             shape += ("regenerate", regen["edits"].get(rec["name"]), regen["same_context"])
             ctx.stat("regenerated_" + str(regen["edits"].get(rec["name"])))
+        elif layout and "java_final" in layout:
+            shape += ("java-class", "base" if rec.get("base") else "final" if layout["java_final"] is not False else "non-final")
+            ctx.stat("java_class_" + shape[-1])
         elif layout:
             shape += layout_key(rec, layout)
-            ctx.stat("layout_default_" + ("+".join(layout["default"]) or "none"))
+            ctx.stat("layout_default_" + ("+".join(layout.get("default", [])) or "none"))
         ctx.count(key=shape, nontrivial=True, sample={"idl": render_record(rec), "values": tuples[:2]}, n=len(tuples) ** 2)
         for _, t in rec["fields"]:
             ctx.stat("field_" + t)
@@ -1429,6 +1491,28 @@ def build_name_groups(ctx, found: dict):
     return groups
 
 
+def build_class_groups(ctx):
+    """Run-time class stream: records whose Java class can be extended — `record +java` base records (generated
+    `<Name>Base`, user class `<Name>`) under the default configuration and under `java.use_final_for_record: false`, and
+    ordinary records under `use_final_for_record: false` — deriving eq / ord / both; the value tuples (two equal ones
+    first) are spread over instances of the generated class, a trivial user subclass and anonymous subclasses."""
+    r = random.Random(f"{ctx.seed}/c09/classes")
+    out = []
+    fixed = [{"name": "ticket", "fields": [("a", "i32"), ("b_two", "string"), ("c", "col"), ("dd", "string")], "eq": True, "ord": True, "base": True},
+             {"name": "badge", "fields": [("a", "i64"), ("b_two", "in_a")], "eq": True, "ord": False, "base": True}]
+    for gi, (java_final, base_share) in enumerate([(None, 1.0), (False, 0.4)]):
+        recs = list(fixed) if gi == 0 else []
+        for i in range(ctx.n(4, 30)):
+            rec = make_record(r, 700 + 100 * gi + i, ["eqord", "eq", "ord", "eqord"][i % 4])
+            rec["name"] = f"k{gi}_{i}"
+            if r.random() < base_share:
+                rec["base"] = True
+            recs.append(rec)
+        layout = {"java_final": java_final if java_final is not None else True, "default": [], "tuples": ctx.n(7, 9)}
+        out.append((f"K{gi}", recs, layout))
+    return out
+
+
 def corpus_records():
     f = Path(__file__).resolve().parent.parent.parent / "corpus" / "c09.json"
     if not f.exists():
@@ -1457,7 +1541,7 @@ def run(ctx):
                             "x field kind (distinct adds the field names); evaluations = comparisons run")
     ctx.assumptions += [
         "string values are ASCII (C++ compares bytes, Java UTF-16 units); floating-point fields are not drawn (NaN / signed zero are outside a linear order)",
-        "Java equals is evaluated on objects of the same class (the instanceof prologue is not modelled)",
+        "the run-time class of a Java object is not an input of the model: `c09.eval` / `c09.spec` are functions of the field values; for record classes that can be extended the driver compares instances of the generated class, of a user subclass without state and of anonymous subclasses (all satisfy the `instanceof` prologue); objects of unrelated classes and `null` are not compared",
         "records without fields get no operators in any target (the templates' `and type_def.fields` guards): nothing to run",
         "nested record values enter the outer record's model as atoms whose order, hash and string form come from the model's evaluation of the nested record",
         "C++ to_string needs <format> (absent in g++ 12): compared as emitted / not emitted only",
@@ -1479,7 +1563,7 @@ def run(ctx):
     ctx.stats["body_identifier_names"] = names
     ctx.stats["t_names_probe_s"] = round(time.time() - t0, 1)
     t0 = time.time()
-    breaks += behaviour(ctx, [(f"g{gi}", recs) for gi, recs in enumerate(groups)] + corpus_layout_groups() + build_layout_groups(ctx) + build_name_groups(ctx, names) + build_regen_groups(ctx))
+    breaks += behaviour(ctx, [(f"g{gi}", recs) for gi, recs in enumerate(groups)] + corpus_layout_groups() + build_layout_groups(ctx) + build_name_groups(ctx, names) + build_regen_groups(ctx) + build_class_groups(ctx))
     ctx.stats["t_behaviour_s"] = round(time.time() - t0, 1)
     ctx.stats["correspondence_breaks"] = len(breaks)
     if breaks and not ctx.violations:
@@ -1497,7 +1581,7 @@ def replay(ctx, body):
     else:
         recs = [{"name": e["name"], "fields": [tuple(x) for x in e["fields"]], "eq": e["eq"], "ord": e["ord"]} for e in inp["records"]]
         for rec, e in zip(recs, inp["records"]):
-            rec.update({k: e[k] for k in ("explicit", "level") if k in e})
+            rec.update({k: e[k] for k in ("explicit", "level", "base") if k in e})
         fixed = {"pools": inp["pools"], "tuples": inp["tuples"]} if "pools" in inp else None
         layout = {**inp["layout"], "run_inner": False} if inp.get("layout") else None      # the recorded tuples belong to the recorded record only
         breaks = behaviour(ctx, [("replay1", recs, layout)], fixed)
